@@ -385,7 +385,8 @@ def spec_functions():
         return d.aware if isinstance(d.aware, bool) else SBool(d.aware)
 
     def us(it, node, t):
-        return SInt(t.us)
+        # microseconds of a timespan; of a fixed-offset zone: its offset
+        return SInt(t.off if isinstance(t, STz) else t.us)
 
     def real_us(it, node, x):
         """seconds (int/float) -> exact microseconds as a real"""
